@@ -412,7 +412,21 @@ fn run(ctx: &mut Ctx) {
 fn run_find_as_nobody(args: &[&str], cwd: &std::path::Path) -> FindOut {
     use std::os::unix::process::CommandExt;
     use std::process::{Command, Stdio};
-    let exe = crate::engine::repo_bin_dir().join("find");
+    // uid 65534 may not be able to reach the build directory (e.g. under /root): run a private
+    // copy of the binary that lives next to the sandbox
+    let src = crate::engine::repo_bin_dir().join("find");
+    let exe = cwd.join(".mc-find-bin");
+    let stale = match (std::fs::metadata(&src), std::fs::metadata(&exe)) {
+        (Ok(a), Ok(b)) => a.len() != b.len() || a.modified().ok() > b.modified().ok(),
+        _ => true,
+    };
+    if stale {
+        use std::os::unix::fs::PermissionsExt;
+        let _ = std::fs::remove_file(&exe);
+        if std::fs::copy(&src, &exe).is_ok() {
+            let _ = std::fs::set_permissions(&exe, std::fs::Permissions::from_mode(0o755));
+        }
+    }
     let mut c = Command::new(exe);
     c.args(args)
         .current_dir(cwd)
